@@ -168,6 +168,13 @@ Proof.
   vm_compute. repeat split; try reflexivity. eexists. eexists. repeat split; reflexivity.
 Qed.
 
+(** The side conditions are needed: a DFA that uses the reserved id -1 as a (final) state, or labels
+    a transition with 0 (= ε), is not equivalent to its ToNFA image. *)
+Example C13_domain_is_tight :
+  (let d := dbuild 0 [-1] [] in daccept d [97] = true /\ naccept (tonfa d) [97] = Ok false) /\
+  (let d := dbuild 0 [1] [((0, 0), 1)] in daccept d [] = false /\ naccept (tonfa d) [] = Ok true).
+Proof. vm_compute. repeat split; reflexivity. Qed.
+
 Print Assumptions C13_constructible.
 Print Assumptions C13_accept_nfa.
 Print Assumptions C13_accept_dfa.
